@@ -1,10 +1,16 @@
 """Self-test of the source-derived definitions (harness/py2lean.py, harness/genside.py, lean/Fca/Gen/Equiv*.lean).
 
-Creates a scratch worktree of /repo, applies one textual edit of fcapy/context/bintable.py at a time, runs
-`FCAPY_REPO=<worktree> python harness/genside.py --check <prop>` and prints what it says; removes the worktree.
-  python tools/gen_selftest.py [name-substring ...] [prop=C01]
-Expected: `i-*` regenerated_equal=True; `ii-*` / `A-ii-*` (semantics-preserving) problems=0 except `ii-c` (uses
-`.append`: outside the translated subset, reported); every `iii-*` / `A-iii-*` (semantic change) problems>=1.
+Part 1 (mutations): creates a scratch worktree of /repo, applies one textual edit of fcapy/context/bintable.py (names
+`i-…`, `ii-…`, `iii-…`, `A-…`; default property C05) or of fcapy/context/formal_context.py (names `C-…`; property C01)
+at a time, runs `FCAPY_REPO=<worktree> python harness/genside.py --check <prop>` and prints what it says; removes the
+worktree; `P-…` edit fcapy/mvcontext/pattern_structure.py (property C13), `O-…` fcapy/poset/poset.py (property C09).
+                python tools/gen_selftest.py [name-substring ...] [prop=C01]
+Expected: `*i-*` regenerated_equal=True; `*ii-*` (semantics-preserving) problems=0 — except `ii-c` (an `append` loop onto
+`out = []` whose element type no `"locals"` entry of the target declares: REFUSED, reported — a false alarm on the safe
+side); every `*iii-*` (semantic change, or a change of the modelled computation) problems>=1.  The last line counts
+the unexpected outcomes (0 expected).
+Part 2 (unit cases, `unit-…`): one small synthetic function per construct of the translated subset — translated text must
+contain the expected Lean fragment, or the construct must be REFUSED with the expected reason.
 """
 import atexit, json, os, subprocess, sys, time
 VERIF = os.path.dirname(os.path.dirname(os.path.abspath(__file__)))
@@ -14,23 +20,34 @@ atexit.register(lambda: subprocess.run(['git', '-C', '/repo', 'worktree', 'remov
                                        stdout=subprocess.DEVNULL, stderr=subprocess.DEVNULL))
 F = os.path.join(WT, 'fcapy/context/bintable.py')
 ORIG = subprocess.run(['git', '-C', '/repo', 'show', 'HEAD:fcapy/context/bintable.py'], stdout=subprocess.PIPE, text=True).stdout
+FO = os.path.join(WT, 'fcapy/poset/poset.py')
+ORIG_O = subprocess.run(['git', '-C', '/repo', 'show', 'HEAD:fcapy/poset/poset.py'], stdout=subprocess.PIPE, text=True).stdout
+FP = os.path.join(WT, 'fcapy/mvcontext/pattern_structure.py')
+ORIG_P = subprocess.run(['git', '-C', '/repo', 'show', 'HEAD:fcapy/mvcontext/pattern_structure.py'], stdout=subprocess.PIPE, text=True).stdout
+FC = os.path.join(WT, 'fcapy/context/formal_context.py')
+ORIG_C = subprocess.run(['git', '-C', '/repo', 'show', 'HEAD:fcapy/context/formal_context.py'], stdout=subprocess.PIPE, text=True).stdout
+UNEXPECTED = []
 LISTS_START = ORIG.index('class BinTableLists')
 LISTS_END = ORIG.index('class BinTableNumpy')
 
-def run(name, edits, prop='C05'):
-    src = ORIG
-    if name.startswith('A-'):      # edits of AbstractBinTable
+def run(name, edits, prop=None):
+    src, path = (ORIG_C, FC) if name.startswith('C-') else (ORIG_P, FP) if name.startswith('P-') else \
+        (ORIG_O, FO) if name.startswith('O-') else (ORIG, F)
+    prop = prop or ('C01' if name.startswith('C-') else 'C13' if name.startswith('P-') else 'C09' if name.startswith('O-') else 'C05')
+    if name[:2] in ('C-', 'P-', 'O-'):      # edits of FormalContext / of the pattern structures
+        head, body, tail = '', src, ''
+    elif name.startswith('A-'):      # edits of AbstractBinTable
         head, body, tail = '', src[:LISTS_START], src[LISTS_START:]
     else:
         head, body, tail = src[:LISTS_START], src[LISTS_START:LISTS_END], src[LISTS_END:]
     for old, new, count in edits:
         assert body.count(old) >= 1, (name, old)
         body = body.replace(old, new, count)
-    open(F, 'w').write(head + body + tail)
+    open(path, 'w').write(head + body + tail)
     t0 = time.time()
     p = subprocess.run(['/venv/bin/python', 'harness/genside.py', '--check', prop], cwd=VERIF,
                        env=dict(os.environ, FCAPY_REPO=WT), stdout=subprocess.PIPE, stderr=subprocess.PIPE, text=True)
-    open(F, 'w').write(ORIG)
+    open(path, 'w').write(src)
     try:
         d = json.loads(p.stdout[p.stdout.index('{'):])
     except Exception:
@@ -39,6 +56,11 @@ def run(name, edits, prop='C05'):
           f'seconds={d["seconds"]} problems={len(d["problems"])}')
     for q in d['problems']:
         print('     PROBLEM:', q[:420])
+    kind = name[2:] if name[:2] in ('A-', 'C-', 'P-', 'O-') else name
+    want = 'equal' if kind.startswith('i-') else 'flagged' if kind.startswith('iii-') or name.startswith('ii-c-explicit') else 'accepted'
+    got = 'flagged' if d['problems'] else 'equal' if d['regenerated_equal'] else 'accepted'
+    if want != got:
+        UNEXPECTED.append(f'{name}: expected {want}, got {got}')
 
 TESTS = {
  'i-comments-docstrings-hints': [
@@ -86,9 +108,249 @@ TESTS = {
  'iii-l-lists-overrides-all_i': [
    ('    def __invert__(self) -> \'BinTableLists\':\n', '    def all_i(self, axis, rows=None, columns=None):\n        return []\n\n    def __invert__(self) -> \'BinTableLists\':\n', 1)],
 }
+
+EXT_I = "        if len(attribute_indexes) == 0:\n            return list(range(self.n_objects)) if base_objects_i is None else list(base_objects_i)\n"
+TESTS.update({
+ # ---- fcapy/context/formal_context.py (property C01)
+ 'C-i-comments-annotations': [
+   ('    def extension_i(self, attribute_indexes: Collection[int], base_objects_i: Collection[int] = None) -> List[int]:\n',
+    '    def extension_i(self, attribute_indexes, base_objects_i: "Collection[int]" = None):\n        # derive\n', 1),
+   ('        attribute_indexes = list(attribute_indexes)\n\n', '        attribute_indexes = list(attribute_indexes)  # copy\n', 1)],
+ 'C-ii-a-flipped-comparison': [(EXT_I, EXT_I.replace('len(attribute_indexes) == 0', '0 == len(attribute_indexes)'), 1)],
+ 'C-ii-b-drop-list-copy': [('        attribute_indexes = list(attribute_indexes)\n\n', '\n', 1)],
+ 'C-ii-c-rename-locals-monotone': [
+   ('        object_indexes = set(object_indexes)\n        inv_objs_i = [g_i for g_i in range(self.n_objects) if g_i not in object_indexes]\n        inv_attrs_i = set(self.data.any_i(0, inv_objs_i, base_attrs_i))\n        return [m_i for m_i in attr_iterator if m_i not in inv_attrs_i]\n',
+    '        given = set(object_indexes)\n        others = [g for g in range(self.n_objects) if g not in given]\n        hit = set(self.data.any_i(0, others, base_attrs_i))\n        return [m for m in attr_iterator if m not in hit]\n', 1)],
+ 'C-ii-d-property-reads-field': [('        return self.data.height\n', '        return self._data.height\n', 1)],
+ 'C-ii-e-conditional-flipped': [
+   ('        extension_i = self.extension_i(attr_indices, base_objects_i)\\\n            if not is_monotone else self.extension_monotone_i(attr_indices, base_objects_i)\n',
+    '        extension_i = self.extension_monotone_i(attr_indices, base_objects_i)\\\n            if is_monotone else self.extension_i(attr_indices, base_objects_i)\n', 1)],
+ 'C-ii-f-comprehension-instead-of-append': [
+   ("        obj_indices = []\n        for g in objects:\n            try:\n                obj_indices.append(self._object_names_i_map[g])\n            except KeyError as e:\n                raise KeyError(f'FormalContext.intention: Context does not have an object \"{g}\"')\n",
+    "        obj_indices = [self._object_names_i_map[g] for g in objects]\n", 1)],
+ 'C-iii-a-wrong-axis': [('self.data.all_i(1, base_objects_i, attribute_indexes)', 'self.data.all_i(0, base_objects_i, attribute_indexes)', 1)],
+ 'C-iii-b-swapped-arguments': [('self.data.all_i(1, base_objects_i, attribute_indexes)', 'self.data.all_i(1, attribute_indexes, base_objects_i)', 1)],
+ 'C-iii-c-any-instead-of-all': [('self.data.all_i(1, base_objects_i, attribute_indexes)', 'self.data.any_i(1, base_objects_i, attribute_indexes)', 1)],
+ 'C-iii-d-shortcut-returns-attributes': [(EXT_I, EXT_I.replace('range(self.n_objects)', 'range(self.n_attributes)'), 1)],
+ 'C-iii-e-rare-shortcut (len == 9)': [(EXT_I, EXT_I.replace('len(attribute_indexes) == 0:', 'len(attribute_indexes) == 0 or len(attribute_indexes) == 9:'), 1)],
+ 'C-iii-f-monotone-dropped-not': [('if g_i not in object_indexes]', 'if g_i in object_indexes]', 1)],
+ 'C-iii-g-monotone-shortcut-compares-objects': [
+   ('        if len(attribute_indexes) == self.n_attributes:\n', '        if len(attribute_indexes) == self.n_objects:\n', 1)],
+ 'C-iii-h-n_objects-is-width': [('        return self.data.height\n', '        return self.data.width\n', 1)],
+ 'C-iii-i-wrong-dictionary': [
+   ('                attr_indices.append(self._attribute_names_i_map[m])\n', '                attr_indices.append(self._object_names_i_map[m])\n', 1)],
+ 'C-iii-j-unknown-name-skipped (refused)': [
+   ("            except KeyError as e:\n                raise KeyError(f'FormalContext.extension: Context does not have an attribute \"{m}\"')\n",
+    "            except KeyError as e:\n                continue\n", 1)],
+ 'C-iii-k-intent-named-by-objects': [('        intention = [self._attribute_names[m_idx] for m_idx in intention_i]\n',
+                                      '        intention = [self._object_names[m_idx] for m_idx in intention_i]\n', 1)],
+ 'C-iii-l-monotone-flag-inverted': [
+   ('        intention_i = self.intention_i(obj_indices) if not is_monotone else self.intention_monotone_i(obj_indices)\n',
+    '        intention_i = self.intention_i(obj_indices) if is_monotone else self.intention_monotone_i(obj_indices)\n', 1)],
+ 'C-iii-m-keyerror-becomes-valueerror': [
+   ("            except KeyError as e:\n                raise KeyError(f'FormalContext.intention: Context does not have an object \"{g}\"')\n",
+    "            except KeyError as e:\n                raise ValueError(f'FormalContext.intention: Context does not have an object \"{g}\"')\n", 1)],
+ 'C-iii-n-base-ignored-by-name': [
+   ('        if base_objects is not None:\n            base_objects_i = []\n', '        if base_objects is None:\n            base_objects_i = list(range(self.n_objects))\n        elif len(base_objects) == 3:\n            base_objects_i = list(range(self.n_objects))\n        elif True:\n            base_objects_i = []\n', 1)],
+})
+
+TESTS.update({
+ # ---- the rest of the lists backend's surface (property C05)
+ 'ii-g-subtable-rename-local': [
+   ('            subtable = [self.data[row_i] for row_i in row_slicer]\n', '            picked = [self.data[r] for r in row_slicer]\n', 1),
+   ('            subtable = [[self.data[row_i][col_i] for col_i in column_slicer] for row_i in row_slicer]\n\n        return self.__class__(subtable)\n',
+    '            picked = [[self.data[r][c] for c in column_slicer] for r in row_slicer]\n\n        return self.__class__(picked)\n', 1)],
+ 'iii-m-subtable-swapped-indexes': [('[[self.data[row_i][col_i] for col_i in column_slicer] for row_i in row_slicer]',
+                                    '[[self.data[col_i][row_i] for col_i in column_slicer] for row_i in row_slicer]', 1)],
+ 'iii-n-subtable-ignores-columns': [('[[self.data[row_i][col_i] for col_i in column_slicer] for row_i in row_slicer]',
+                                    '[[v for v in self.data[row_i]] for row_i in row_slicer]', 1)],
+ 'iii-o-to_list-negates': [('    def to_list(self) -> List[List[bool]]:\n        return self.data\n',
+                           '    def to_list(self) -> List[List[bool]]:\n        return [[not v for v in row] for row in self.data]\n', 1)],
+ 'A-ii-T-rename': [('[self._get_column(range(self.height), col_i) for col_i in range(self.width)]',
+                    '[self._get_column(range(self.height), j) for j in range(self.width)]', 1)],
+ 'A-iii-T-height-width-swapped': [('[self._get_column(range(self.height), col_i) for col_i in range(self.width)]',
+                                   '[self._get_column(range(self.width), col_i) for col_i in range(self.height)]', 1)],
+ 'A-iii-eq-ignores-width': [('        if self.width != other.width:\n            return False\n', '        if self.width != other.width:\n            return True\n', 1)],
+ 'A-ii-eq-merged-tests': [('        if self.height != other.height:\n            return False\n        if self.width != other.width:\n            return False\n',
+                           '        if self.height != other.height or self.width != other.width:\n            return False\n', 1)],
+ 'A-iii-get_item-swapped': [('        return bool(self.data[row_idx][column_idx])\n', '        return bool(self.data[column_idx][row_idx])\n', 1)],
+ 'A-iii-sum-dispatch-swapped': [
+   ('        if axis == 0:\n            return self._sum_per_column(rows, columns)\n        if axis == 1:\n            return self._sum_per_row(rows, columns)\n',
+    '        if axis == 0:\n            return self._sum_per_row(rows, columns)\n        if axis == 1:\n            return self._sum_per_column(rows, columns)\n', 1)],
+ 'A-iii-len-is-width': [('    def __len__(self):\n        return self.height\n', '    def __len__(self):\n        return self.width\n', 1)],
+ 'A-iii-all-none-uses-any': [('        if axis is None:\n            return self._all(rows, columns)\n', '        if axis is None:\n            return self._any(rows, columns)\n', 1)],
+})
+
+TESTS.update({
+ # ---- fcapy/mvcontext/pattern_structure.py (property C13)
+ 'P-i-comments': [('        min_, max_ = self._data[object_indexes[0]]\n', '        # start from the first object\n        min_, max_ = self._data[object_indexes[0]]\n', 1)],
+ 'P-ii-a-rename-loop-locals': [
+   ('        for g_i in object_indexes[1:]:\n            v_min, v_max = self._data[g_i]\n            min_ = v_min if v_min < min_ else min_\n            max_ = v_max if v_max > max_ else max_\n',
+    '        for k in object_indexes[1:]:\n            lo, hi = self._data[k]\n            min_ = lo if lo < min_ else min_\n            max_ = hi if hi > max_ else max_\n', 1)],
+ 'P-ii-b-flipped-comparison': [('            max_ = v_max if v_max > max_ else max_\n', '            max_ = v_max if max_ < v_max else max_\n', 1)],
+ 'P-ii-c-attr-explicit-return': [
+   ('        if not description:\n            return list(base_objects_i)\n\n        return [g_i for g_i in base_objects_i if self._data[g_i]]\n',
+    '        if not description:\n            return list(base_objects_i)\n        selected = [g for g in base_objects_i if self._data[g]]\n        return selected\n', 1)],
+ 'P-iii-a-min-takes-larger': [('            min_ = v_min if v_min < min_ else min_\n', '            min_ = v_min if v_min > min_ else min_\n', 1)],
+ 'P-iii-b-skips-second-object': [('        for g_i in object_indexes[1:]:\n            v_min, v_max', '        for g_i in object_indexes[2:]:\n            v_min, v_max', 1)],
+ 'P-iii-c-or-instead-of-and': [('if min_ <= self._data[g_i][0] and self._data[g_i][1] <= max_]', 'if min_ <= self._data[g_i][0] or self._data[g_i][1] <= max_]', 1)],
+ 'P-iii-d-strict-left-bound': [('if min_ <= self._data[g_i][0] and self._data[g_i][1] <= max_]', 'if min_ < self._data[g_i][0] and self._data[g_i][1] <= max_]', 1)],
+ 'P-iii-e-set-intent-intersects': [('            intent |= self._data[g_i]\n', '            intent = intent & self._data[g_i]\n', 1)],
+ 'P-iii-f-set-extension-equality': [('if self._data[g_i] & description == self._data[g_i]]', 'if self._data[g_i] & description == description]', 1)],
+ 'P-iii-g-attr-any': [('        return all(self._data[g_i] for g_i in object_indexes)\n', '        return any(self._data[g_i] for g_i in object_indexes)\n', 1)],
+ 'P-iii-h-attr-all-of-a-list (evaluates every element: IndexError after a False)': [
+   ('        return all(self._data[g_i] for g_i in object_indexes)\n', '        return all([self._data[g_i] for g_i in object_indexes])\n', 1)],
+ 'P-iii-i-attr-description-inverted': [('        if not description:\n            return list(base_objects_i)\n', '        if description:\n            return list(base_objects_i)\n', 1)],
+ 'P-iii-j-none-description-selects-all': [
+   ('        if description is None:\n            return []\n\n        min_, max_ = description', '        if description is None:\n            return list(range(len(self._data)))\n\n        min_, max_ = description', 1)],
+ 'P-iii-k-first-object-twice (rare: only with >= 2 objects and a wider 2nd)': [
+   ('        for g_i in object_indexes[1:]:\n            v_min, v_max', '        for g_i in object_indexes[:1]:\n            v_min, v_max', 1)],
+})
+
+TESTS.update({
+ # ---- fcapy/poset/poset.py, uncached queries (property C09)
+ 'O-i-comments': [('        sup_indexes = {i for i in range(len(self)) if self.leq_elements(element_index, i) and i != element_index}\n',
+                   '        # strict upper set\n        sup_indexes = {i for i in range(len(self)) if self.leq_elements(element_index, i) and i != element_index}\n', 1)],
+ 'O-ii-a-rename-comprehension-variable': [
+   ('        sub_indexes = {i for i in range(len(self)) if self.leq_elements(i, element_index) and i != element_index}\n        return frozenset(sub_indexes)\n',
+    '        below = {k for k in range(len(self)) if self.leq_elements(k, element_index) and k != element_index}\n        return frozenset(below)\n', 1)],
+ 'O-ii-b-len-of-elements': [('    def __len__(self):\n        return len(self._elements)\n', '    def __len__(self):\n        n = len(self._elements)\n        return n\n', 1)],
+ 'O-iii-a-descendants-not-strict': [
+   ('        sub_indexes = {i for i in range(len(self)) if self.leq_elements(i, element_index) and i != element_index}\n',
+    '        sub_indexes = {i for i in range(len(self)) if self.leq_elements(i, element_index)}\n', 1)],
+ 'O-iii-b-ancestors-swapped-comparison': [
+   ('        sup_indexes = {i for i in range(len(self)) if self.leq_elements(element_index, i) and i != element_index}\n',
+    '        sup_indexes = {i for i in range(len(self)) if self.leq_elements(i, element_index) and i != element_index}\n', 1)],
+ 'O-iii-c-children-prune-with-ancestors': [
+   ('                subelement_idxs -= self.descendants(el_idx)\n', '                subelement_idxs -= self.ancestors(el_idx)\n', 1)],
+ 'O-iii-d-parents-no-membership-test (result unchanged for partial orders, but not the modelled computation)': [
+   ('            if el_idx in superelement_idxs:\n                superelement_idxs -= self.ancestors(el_idx)\n',
+    '            superelement_idxs -= self.ancestors(el_idx)\n', 1)],
+ 'O-iii-e-tops-use-descendants': [
+   ('        return [el_i for el_i in range(len(self)) if len(self.ancestors(el_i)) == 0]\n',
+    '        return [el_i for el_i in range(len(self)) if len(self.descendants(el_i)) == 0]\n', 1)],
+ 'O-iii-f-leq-arguments-swapped': [
+   ('        return self._leq_func(self._elements[a_index], self._elements[b_index])\n',
+    '        return self._leq_func(self._elements[b_index], self._elements[a_index])\n', 1)],
+ 'O-iii-g-leq-reflexive-shortcut (changes answers only for a non-reflexive leq_func)': [
+   ('        return self._leq_func(self._elements[a_index], self._elements[b_index])\n',
+    '        return a_index == b_index or self._leq_func(self._elements[a_index], self._elements[b_index])\n', 1)],
+})
+
+# ---------------------------------------------------------------------------------------------- unit cases
+UNIT_HEAD = 'class T:\n'
+def unit(name, body, params, returns, expect, refuse=None, extra=None):
+    """translate `class T: def f(self, …)`; expect = Lean fragments that must occur / refuse = reason that must be given"""
+    import tempfile
+    sys.path.insert(0, os.path.join(VERIF, 'harness'))
+    import py2lean
+    cfg = py2lean.load_config()
+    tg = dict(file='m.py', qualname='T.f', lean='f', params=dict(self='Table', **params), returns=returns, props=['X'])
+    extra = dict(extra or {})
+    prelude = extra.pop('_prelude', '')
+    if '_self' in extra:
+        tg['params']['self'] = extra.pop('_self')
+    tg.update(extra)
+    with tempfile.TemporaryDirectory() as d:
+        open(os.path.join(d, 'm.py'), 'w').write(prelude + UNIT_HEAD + ''.join('    ' + l + '\n' for l in body.split('\n')))
+        blocks, errors, _ = py2lean.translate_all(dict(cfg, targets=[tg]), root=d)
+    txt, err = blocks['f'], errors.get('f')
+    if refuse is not None:
+        ok = err is not None and refuse in str(err)
+    else:
+        ok = err is None and all(e in txt for e in expect)
+    print(f'== unit-{name}: ' + ('ok' if ok else 'UNEXPECTED') + (f' (refused: {err})' if err else ''))
+    if not ok:
+        UNEXPECTED.append(f'unit-{name}: ' + (str(err) if err else txt))
+
+ON = 'Option (List Nat)'
+UNITS = [
+ ('list-copy', 'def f(self, xs):\n    return list(xs)', dict(xs='List Nat'), 'List Nat', ['return xs']),
+ ('set-membership', 'def f(self, xs, y):\n    s = set(xs)\n    return y not in s', dict(xs='List Nat', y='Nat'), 'Bool',
+  ['(Fca.Gen.pySet xs)', '(!(List.contains s y))']),
+ ('in-list', 'def f(self, xs, y):\n    return y in xs', dict(xs='List Nat', y='Nat'), 'Bool', ['(List.contains xs y)']),
+ ('set-iteration-refused', 'def f(self, xs):\n    return [x for x in set(xs)]', dict(xs='List Nat'), 'List Nat', None, 'iteration over'),
+ ('set-len-refused', 'def f(self, xs):\n    return len(set(xs))', dict(xs='List Nat'), 'Nat', None, 'call `len('),
+ ('dict-subscript', 'def f(self, d, k):\n    return d[k]', dict(d='Dict String Nat', k='String'), 'Nat', ['Fca.Gen.dictGet d k']),
+ ('dict-wrong-key-type-refused', 'def f(self, d, k):\n    return d[k]', dict(d='Dict String Nat', k='Nat'), 'Nat', None, 'subscript of'),
+ ('string-constant', 'def f(self, x):\n    return x == "ab"', dict(x='String'), 'Bool', ['(x == "ab")']),
+ ('string-constant-with-quote-refused', 'def f(self, x):\n    return x == \'a"b\'', dict(x='String'), 'Bool', None, 'constant'),
+ ('append-loop', 'def f(self, xs):\n    out = []\n    for x in xs:\n        out.append(x + 1)\n    return out', dict(xs='List Nat'), 'List Nat',
+  ['let mut out := ([] : List Nat)', 'out := (out ++ [(x + 1)])'], None, dict(locals=dict(out='List Nat'))),
+ ('empty-list-undeclared-refused', 'def f(self, xs):\n    out = []\n    return out', dict(xs='List Nat'), 'List Nat', None, 'element type is unknown'),
+ ('append-to-parameter-refused', 'def f(self, xs):\n    xs.append(1)\n    return xs', dict(xs='List Nat'), 'List Nat', None, 'is a parameter'),
+ ('append-aliased-refused', 'def f(self, xs):\n    out = [0]\n    ys = out\n    out.append(1)\n    return ys', dict(xs='List Nat'), 'List Nat', None, 'through an alias'),
+ ('append-read-in-loop-refused', 'def f(self, xs):\n    out = [0]\n    for x in xs:\n        y = out\n        out.append(x)\n    return out', dict(xs='List Nat'), 'List Nat', None, 'through an alias'),
+ ('append-not-fresh-refused', 'def f(self, xs):\n    out = xs\n    out.append(1)\n    return out', dict(xs='List Nat'), 'List Nat', None, 'not always bound to a fresh list'),
+ ('try-reraise-same-class', 'def f(self, d, k):\n    try:\n        v = d[k]\n    except KeyError as e:\n        raise KeyError(f"no {k}")\n    return v',
+  dict(d='Dict String Nat', k='String'), 'Nat', ['the class of the exception is unchanged', 'Fca.Gen.dictGet d k']),
+ ('try-other-class-refused', 'def f(self, d, k):\n    try:\n        v = d[k]\n    except KeyError:\n        raise ValueError("x")\n    return v',
+  dict(d='Dict String Nat', k='String'), 'Nat', None, '`try` other than'),
+ ('try-swallow-refused', 'def f(self, d, k):\n    try:\n        v = d[k]\n    except KeyError:\n        v = 0\n    return v',
+  dict(d='Dict String Nat', k='String'), 'Nat', None, '`try` other than'),
+ ('try-message-with-call-refused', 'def f(self, d, k):\n    try:\n        v = d[k]\n    except KeyError:\n        raise KeyError(str(k))\n    return v',
+  dict(d='Dict String Nat', k='String'), 'Nat', None, '`try` other than'),
+ ('bool-default', 'def f(self, x, flag=False):\n    return x if flag else 0', dict(x='Nat', flag='Bool'), 'Nat', ['(flag : Bool)']),
+ ('non-constant-default-refused', 'def f(self, x, n=len("a")):\n    return x', dict(x='Nat', n='Nat'), 'Nat', None, 'default value of `n`'),
+ ('list-where-option-expected', 'def f(self, xs):\n    return self.g(xs)\ndef g(self, ys=None):\n    return 0', dict(xs='List Nat'), 'Nat', None, 'not a translated target'),
+ ('property-not-a-target-refused', 'def f(self):\n    return self.size', {}, 'Nat', None, 'no class of'),
+ ('type-comparison-of-records-folded', 'def f(self, other):\n    if type(self) != type(other):\n        return 1\n    return 0', dict(other='Table'), 'Nat',
+  ['`type(self) != type(other)` is statically True']),
+ ('type-comparison-with-non-record-refused', 'def f(self, x):\n    if type(self) != type(x):\n        return 1\n    return 0', dict(x='Nat'), 'Nat', None, 'call `type('),
+ ('none-constant-parameter', 'def f(self, axis, x):\n    if axis is None:\n        return x\n    return 0', dict(x='Nat'), 'Nat',
+  ['`axis is None` is statically True'], None, dict(const=dict(axis=None))),
+ ('none-constant-used-as-value-refused', 'def f(self, axis, x):\n    return [axis]', dict(x='Nat'), 'List Nat', None, 'is used as a value', dict(const=dict(axis=None))),
+ ('tail-slice', 'def f(self, xs):\n    return xs[1:]', dict(xs='List Nat'), 'List Nat', ['(List.drop 1 xs)']),
+ ('other-slice-refused', 'def f(self, xs):\n    return xs[:1]', dict(xs='List Nat'), 'List Nat', None, 'slice other than'),
+ ('pair-component', 'def f(self, p):\n    return p[1]', dict(p='Num × Num'), 'Num', ['p.2']),
+ ('pair-component-out-of-range-refused', 'def f(self, p):\n    return p[2]', dict(p='Num × Num'), 'Num', None, 'component of a pair'),
+ ('num-comparison-and-min', 'def f(self, a, b):\n    return max(a, b) if a < b else min(a, b)', dict(a='Num', b='Num'), 'Num',
+  ['(decide (a < b))', '(Fca.Gen.pyMax2 a b)', '(Fca.Gen.pyMin2 a b)']),
+ ('return-none-for-option', 'def f(self, xs):\n    if len(xs) == 0:\n        return None\n    return xs[0]', dict(xs='List Nat'), 'Option Nat', ['return none', 'return (some ']),
+ ('return-none-for-non-option-refused', 'def f(self, xs):\n    return None', dict(xs='List Nat'), 'Nat', None, 'constant None'),
+ ('not-list', 'def f(self, xs):\n    return not xs', dict(xs='List Nat'), 'Bool', ['(List.isEmpty xs)']),
+ ('not-nat-refused', 'def f(self, n):\n    return not n', dict(n='Nat'), 'Bool', None, 'unary `Not`'),
+ ('all-of-generator-short-circuits', 'def f(self, xs, ys):\n    return all(ys[x] for x in xs)', dict(xs='List Nat', ys='List Bool'), 'Bool', ['Fca.Gen.allM (fun x => do']),
+ ('all-of-list-evaluates-all', 'def f(self, xs, ys):\n    return all([ys[x] for x in xs])', dict(xs='List Nat', ys='List Bool'), 'Bool', ['List.mapM (fun x => do', 'Fca.Gen.pyAll']),
+ ('filter-with-raising-condition', 'def f(self, xs, ys):\n    return [x for x in xs if ys[x]]', dict(xs='List Nat', ys='List Bool'), 'List Nat',
+  ['Fca.Gen.filterMapM (fun x => do', 'pure (some x)', 'else pure none) xs']),
+ ('set-operations', 'def f(self, a, b):\n    return a & b == a | b', dict(a='Set Num', b='Set Num'), 'Bool', ['Fca.Gen.setEq (Fca.Gen.setInter a b) (Fca.Gen.setUnion a b)']),
+ ('set-update-in-place', 'def f(self, xs):\n    s = set()\n    for x in xs:\n        s |= x\n    return s', dict(xs='List (Set Num)'), 'Set Num',
+  ['let mut s := ([] : List Int)', 's := (Fca.Gen.setUnion s x)'], None, dict(locals=dict(s='Set Num'))),
+ ('set-update-of-parameter-refused', 'def f(self, s, x):\n    s |= x\n    return s', dict(s='Set Num', x='Set Num'), 'Set Num', None, 'is a parameter'),
+ ('plus-equals-refused', 'def f(self, n):\n    n += 1\n    return n', dict(n='Nat'), 'Nat', None, 'augmented assignment other than'),
+ ('isinstance-number-of-pair-folded', 'def f(self, d):\n    return 1 if isinstance(d, Number) else 0', dict(d='Num × Num'), 'Nat', ['return 0'], None,
+  dict(_prelude='from numbers import Number\n')),
+ ('isinstance-number-without-import-refused', 'def f(self, d):\n    return 1 if isinstance(d, Number) else 0', dict(d='Num × Num'), 'Nat', None, 'unknown name `Number`'),
+ ('set-comprehension-and-frozenset', 'def f(self, xs):\n    s = {x for x in xs if x != 2}\n    return frozenset(s)', dict(xs='List Nat'), 'FSet Nat',
+  ['List.filterMap (fun x => if (x != 2) then some x else none) xs']),
+ ('set-difference-and-emptiness', 'def f(self, a, b):\n    return len(a - b) == 0', dict(a='FSet Nat', b='FSet Nat'), 'Bool', ['(List.isEmpty (Fca.Gen.setDiff a b))']),
+ ('len-of-set-refused', 'def f(self, a):\n    return len(a) == 1', dict(a='FSet Nat'), 'Bool', None, 'call `len('),
+ ('frozenset-update-rebinds', 'def f(self, a, b):\n    a -= b\n    return a', dict(a='FSet Nat', b='FSet Nat'), 'FSet Nat', ['let a := (Fca.Gen.setDiff a b)']),
+ ('set-update-of-parameter-in-place-refused', 'def f(self, a, b):\n    a -= b\n    return a', dict(a='Set Nat', b='Set Nat'), 'Set Nat', None, 'is a parameter'),
+ ('list-of-set-needs-order-parameter-refused', 'def f(self, a):\n    return list(a)', dict(a='FSet Nat'), 'List Nat', None, 'no iteration-order parameter'),
+ ('list-of-set-with-order-parameter', 'def f(self, a):\n    return list(a)', dict(a='FSet Nat'), 'List Nat', ['(ord : List Nat → List Nat)', 'return (ord a)'], None, dict(unit='Poset')),
+ ('function-field-call', 'def f(self, i, j):\n    return self._leq_func(self._elements[i], self._elements[j])', dict(i='Nat', j='Nat'), 'Bool',
+  ['{α : Type}', '(self.leq t1 t2)'], None, dict(unit='Poset', _self='POSet')),
+ ('function-field-as-value-refused', 'def f(self):\n    g = self._leq_func\n    return True', {}, 'Bool', None, 'used other than by calling it', dict(unit='Poset', _self='POSet')),
+ ('len-of-record-needs-target-refused', 'def f(self):\n    return len(self)', {}, 'Nat', None, 'no class of', dict(unit='Poset', _self='POSet')),
+ ('copy-without-import-refused', 'def f(self, a):\n    return copy(a)', dict(a='FSet Nat'), 'FSet Nat', None, 'call `copy('),
+ ('copy-of-set', 'def f(self, a):\n    return copy(a)', dict(a='FSet Nat'), 'FSet Nat', ['return a'], None, dict(_prelude='from copy import copy\n')),
+ ('set-display', 'def f(self, a, x):\n    return a | {x}', dict(a='FSet Nat', x='Nat'), 'FSet Nat', ['(Fca.Gen.setUnion a [x])']),
+ ('method-of-non-record-refused', 'def f(self, xs):\n    return xs.count(1)', dict(xs='List Nat'), 'Nat', None, 'the receiver is not a record'),
+]
+
 if __name__ == '__main__':
-    sel = sys.argv[1:]
+    sel = [x for x in sys.argv[1:] if not x.startswith('prop=')]
+    prop = next((x[5:] for x in sys.argv[1:] if x.startswith('prop=')), None)
     for name, edits in TESTS.items():
-        if sel and not any(s in name for s in sel if not s.startswith('prop=')):
+        if sel and not any(x in name for x in sel):
             continue
-        run(name, edits, next((s[5:] for s in sel if s.startswith('prop=')), 'C05'))
+        run(name, edits, prop)
+    for u in UNITS:
+        if sel and not any(x in 'unit-' + u[0] for x in sel):
+            continue
+        unit(*u)
+    print(f'unexpected outcomes: {len(UNEXPECTED)}')
+    for x in UNEXPECTED:
+        print('   ', x[:600])
